@@ -334,3 +334,32 @@ def run_instance(inst, script, box=30.0, seed=0, chooser=None, check_path=True, 
             if rec.script:
                 return rec.events, "NOVERDICT: script not consumed (%d outcomes left)" % len(rec.script)
             return rec.events, None
+
+
+def compact_trace(inst, evs):
+    """Projection for big systems: molecules that are fully supplied and whose engine rows never change are hidden from the
+    header and from every event (indices renumbered).  If such a molecule ever appears in a `moved` set the trace is returned
+    unchanged, so that the trace specification sees (and rejects) the movement."""
+    n = inst["nmol"]
+    full = [m for m in range(1, n + 1) if sorted(inst["attr"][m - 1]) == sorted(inst["nodes"][m - 1]) and m not in inst["ignored"]]
+    touched = {mv[0] for e in evs for mv in e.get("moved", [])} | {e["mol"] for e in evs if e.get("mol")}
+    drop = [m for m in full if m not in touched]
+    if not drop:
+        return inst, evs
+    keep = [m for m in range(1, n + 1) if m not in set(drop)]
+    ren = {m: i + 1 for i, m in enumerate(keep)}
+    h = dict(inst)
+    h["nmol"] = len(keep)
+    for key in ("nodes", "path", "root", "attr", "build", "mname", "resname", "resid"):
+        if key in h:
+            h[key] = [h[key][m - 1] for m in keep]
+    h["ignored"] = [ren[m] for m in inst["ignored"] if m in ren]
+    out = []
+    for e in evs:
+        e2 = dict(e)
+        if e2.get("mol"):
+            e2["mol"] = ren[e2["mol"]]
+        e2["pos"] = [e["pos"][m - 1] for m in keep]
+        e2["moved"] = [[ren[a], b] for a, b in e.get("moved", [])]
+        out.append(e2)
+    return h, out
